@@ -124,6 +124,17 @@ func runTunnels(prop string) {
 	for i := 0; i < k; i++ {
 		ts.Add(drawTunnel(m, collisionFree, maxBytes))
 	}
+	if prop == "C17" || prop == "C16" {
+		// opens that fail at the exit: nothing listens at the destination
+		for q := simrt.Choose(3, "refused-opens"); q > 0; q-- {
+			t := drawTunnel(m, collisionFree, 1000)
+			if t.Kind == "domain" {
+				t.Kind = "tcp"
+			}
+			t.NoServer = true
+			ts.Add(t)
+		}
+	}
 	if collisionFree && prop != "C07" && simrt.Chance(1, 3, "udp-tunnel") {
 		u := &Tunnel{Kind: "udp", Ingress: 0, Exit: m.TunnelExit, Up: 1 + simrt.Choose(30, "udpcount")}
 		ts.Add(u)
@@ -168,6 +179,29 @@ func runTunnels(prop string) {
 	if prop == "C04" {
 		simrt.Sleep(500 * time.Millisecond)
 		ts.checkTransitKeyless()
+	}
+	if prop == "C17" && collisionFree && len(m.Nodes[m.TunnelExit].Cfg.Listeners) > 0 && simrt.Chance(1, 2, "crafted-refusals") {
+		// opens that the exit refuses (destination outside its networks, unknown
+		// forward key), sent by a raw peer; refused opens must leave nothing behind
+		if rp, err := m.AttachRawPeer(m.TunnelExit, 3); err == nil {
+			n := 1 + simrt.Choose(4, "nrefusals")
+			for q := 0; q < n; q++ {
+				sid := uint64(2001 + 2*q)
+				so := &protocol.StreamOpen{RequestID: uint64(9000 + q), AddressType: protocol.AddrTypeIPv4, Address: []byte{203, 0, 113, byte(9 + q)}, Port: 80}
+				_, pub, _ := crypto.GenerateEphemeralKeypair()
+				so.EphemeralPubKey = pub
+				if q%2 == 1 {
+					name := protocol.ForwardStreamPrefix + "no-such-key"
+					so.AddressType = protocol.AddrTypeDomain
+					so.Address = append([]byte{byte(len(name))}, name...)
+					so.Port = 0
+				}
+				rp.Send(&protocol.Frame{Type: protocol.FrameStreamOpen, StreamID: sid, Payload: so.Encode()})
+				simrt.Probe("crafted_open_refused_by_exit")
+			}
+			simrt.Sleep(2 * time.Second)
+			rp.Close()
+		}
 	}
 	if prop == "C17" || prop == "C16" {
 		ts.injectFaults(prop)
